@@ -13,7 +13,7 @@ RULE = ("layout trees of depth 0-2 with inspection lists of length 0-3 per layou
         "signature, supplied key without signature, expiry, missing links, threshold not met, threshold disagreement, "
         "failing sublayout, violated step rule, unloadable link file. Non-trivial: at least one inspection exists "
         "somewhere in the tree; distinct by description.")
-ASSUMPTIONS = ["a helper process that sleeps 30 s stands for 'exceeds the time limit' (limit 4 s; 30 s when no inspection sleeps)",
+ASSUMPTIONS = ["a helper process that sleeps 30 s stands for 'exceeds the time limit' (the sleeper sleeps 7 s: beyond the 3 s limit set when a scenario has one, below in-toto's 10 s default; 30 s limit otherwise)",
                "the append-only log is the only side effect observed"]
 FAILS = [None, None, None, "layout_sig", "unsigned_key", "expired", "missing_links", "threshold_unmet",
          "threshold_disagree", "step_rule", "unloadable_link"]
@@ -140,7 +140,7 @@ def timeout_for(ch):
     """Time limit for inspections: short only when some inspection is meant to exceed it, and
     even then with a wide margin over interpreter start-up under load."""
     sleeper = any(x["action"] == "sleep" for n, _p in scen.walk(ch) for x in n.inspections)
-    return 4 if sleeper else 30
+    return 3 if sleeper else 30
 
 
 def one_case(rng, res):
